@@ -1,6 +1,6 @@
 """C09 – opaque tags stay opaque: nowiki/pre/math/source/syntaxhighlight/timeline bodies are never interpreted.
 
-Space: 6 tags x 7 embedding contexts x every body in SIGMA_B^<=2 (quick) / ^<=3 (thorough) that does not contain the tag's own
+Space: 6 tags x 11 embedding contexts x every body in SIGMA_B^<=2 (quick) / ^<=3 (thorough) that does not contain the tag's own
 closing tag.  Oracles: (1) the text the tag contributes to the tree, read between two sentinels, is exactly the body
 (character entities decoded for nowiki/pre only); (2) the tree has exactly the node structure it has when the body is a plain
 word – nothing inside the body created a node; (3) Uniquifier.replace_uniq(replace_tags(s)) == s.
@@ -14,7 +14,9 @@ from mc.props.c01 import LangDB
 TAGS = ["nowiki", "pre", "math", "source", "syntaxhighlight", "timeline"]
 SIGMA_B = ["a", " ", "''", "'''", "[[a]]", "[[", "]]", "{{T}}", "{{{1}}}", "}}", "{{", "|", "||", "=", "<b>", "</b>", "<!-- c -->", "<!--",
            "&amp;", "&#65;", "\n* ", "\n== h ==\n", "\n ", "\n{|", "\n|}", "<nowiki>", "</nowiki>", "<pre>", "<ref>", "<noinclude>",
-           "</noinclude>", "<includeonly>", "<onlyinclude>", "<br/>", "</div>", "__TOC__", "http://x", "~~~~", "\n\n", "<math>"]
+           "</noinclude>", "<includeonly>", "<onlyinclude>", "<br/>", "</div>", "__TOC__", "http://x", "~~~~", "\n\n", "<math>",
+           # entity-escaped markup (how help pages document the tags), stray ampersands, other entity spellings
+           "&lt;nowiki&gt;", "&lt;/nowiki&gt;", "&lt;b&gt;", "&#60;", "&#x3E;", "&amp;lt;", "&quot;", "&", "&amp ", "&bogus;"]
 S0, S1 = "Sxq0", "Sxq1"
 CONTEXTS = [
     ("top", "%s", {}),
@@ -24,17 +26,21 @@ CONTEXTS = [
     ("positional-arg", "{{E|%s}}", {"E": "{{{1}}}"}),
     ("named-arg", "{{N|x=%s}}", {"N": "{{{x}}}"}),
     ("template-body", "{{B}}", None),
+    # arguments and branches of parser functions (the function works on the surrounding text, never on the protected region)
+    ("if-branch", "{{#if:x|%s}}", {}),
+    ("switch-branch", "{{#switch:k|k=%s}}", {}),
+    ("lc-arg", "{{lc:%s}}", {}),
+    ("uc-arg", "{{uc:%s}}", {}),
 ]
+SENTINEL_CASE = {"lc-arg": str.lower, "uc-arg": str.upper}
 
 
 def decode_entities(s):
+    known = {"amp": "&", "#65": "A", "lt": "<", "gt": ">", "#60": "<", "#x3E": ">", "quot": '"'}
+
     def rep(m):
-        e = m.group(1)
-        if e == "amp":
-            return "&"
-        if e == "#65":
-            return "A"
-        return m.group(0)
+        return known.get(m.group(1), m.group(0))
+    # one pass, well-formed references only: what a decoded entity produces is text, never markup and never decoded again
     return re.sub(r"&([a-zA-Z0-9#]+);", rep, s)
 
 
@@ -66,9 +72,9 @@ def shape(node, out):
 
 class C09(InputProp):
     id = "C09"
-    rule = ("6 tags x 7 contexts x every body over a 40-lexeme markup alphabet up to the length bound (bodies containing the tag's own "
+    rule = ("6 tags x 11 contexts x every body over a 50-lexeme markup alphabet up to the length bound (bodies containing the tag's own "
             "closing tag excluded); distinct = distinct (tag, context, tree shape) outcomes")
-    assumptions = ("bodies are sequences of the 40 lexemes of SIGMA_B", "the reserved marker byte 0x7f does not occur in bodies (excluded by the statement)")
+    assumptions = ("bodies are sequences of the 50 lexemes of SIGMA_B", "the reserved marker byte 0x7f does not occur in bodies (excluded by the statement)")
     chunk = 1500
     soft_timeout = 20.0
 
@@ -163,8 +169,10 @@ class C09(InputProp):
         leaves(t, out)
         alltext = "".join(out)
         want = decode_entities(body) if tag in ("nowiki", "pre") else body
-        m = re.search(re.escape(S0) + "(.*)" + re.escape(S1), alltext, re.S)
-        if alltext.count(S0) != 1 or alltext.count(S1) != 1 or not m:
+        cs = SENTINEL_CASE.get(ctxname, str)
+        s0, s1 = cs(S0), cs(S1)
+        m = re.search(re.escape(s0) + "(.*)" + re.escape(s1), alltext, re.S)
+        if alltext.count(s0) != 1 or alltext.count(s1) != 1 or not m:
             viol.append({"sig": "%s|sentinels:%s:%s" % (feature, tag, ctxname),
                          "msg": "surrounding text damaged: page %r gives text %r" % (text, alltext[:200])})
         elif m.group(1) != want:
